@@ -21,6 +21,12 @@ def svc(stype, name, port, attrs):
 
 def gen_net(rng, base):
     np_, nb = rng.choice([1, 1, 2, 3, 4]), rng.choice([1, 1, 2, 3])
+    # sequential histories: every provider has gone and the records it left have expired (the browsers' caches run
+    # empty at a timeout) before the next one starts
+    sequential = rng.random() < 0.3
+    if sequential:
+        np_ = rng.choice([2, 3, 4])
+        nb = rng.choice([1, 2])
     lines = ["DUP %s" % rng.choice(["on", "off"])]
     nodes = list(range(np_ + nb))
     for i in nodes:
@@ -60,10 +66,30 @@ def gen_net(rng, base):
     if rng.random() < 0.8:
         adv(rng.choice([0, 1000, 2000, 2500]))
     update(i0)
+    if sequential:
+        i = pending_b.pop()
+        t = rng.choice([state[i0]["svc"][0], "_services._dns-sd._udp.local."])
+        lines.append("BROWSER %d %s" % (i, nc.hexs(t)))
+        browsers[i] = t
+
+    def after_vanish():
+        nonlocal last_disconnect
+        if not sequential or any(st["alive"] and st["connected"] for st in state.values()):
+            return
+        adv(rng.choice([2500, 6000]))
+        adv(rng.choice([3700, 4600, 9000]) * 1000)
+        if pending_p:
+            i = pending_p.pop()
+            lines.extend(["HOST %d" % i, "PROVIDER %d" % i])
+            state[i] = {"alive": True, "connected": True, "svc": None}
+            adv(rng.choice([0, 2000, 2500]))
+            update(i)
+            adv(rng.choice([2500, 6000, 30000]))
+
     for _ in range(nevents):
         r = rng.random()
         live = [i for i in sorted(state) if state[i]["alive"] and state[i]["connected"]]
-        if pending_p and r < 0.15:
+        if pending_p and r < (0.05 if sequential else 0.15):
             i = pending_p.pop()
             lines += ["HOST %d" % i, "PROVIDER %d" % i]
             state[i] = {"alive": True, "connected": True, "svc": None}
@@ -83,15 +109,18 @@ def gen_net(rng, base):
             adv(rng.choice([0, 1, 500, 1999, 2000, 2500]))
             lines.append("DESTROY %d" % i)
             state[i]["alive"] = False
-        elif r < 0.66 and live:
+            after_vanish()
+        elif r < (0.72 if sequential else 0.66) and live:
             i = rng.choice(live)
             lines.append("DESTROY %d" % i)
             state[i]["alive"] = False
-        elif r < 0.70 and live:
+            after_vanish()
+        elif r < (0.85 if sequential else 0.70) and live:
             i = rng.choice(live)
             lines.append("DISCONNECT %d" % i)
             state[i]["connected"] = False
             last_disconnect = now
+            after_vanish()
         else:
             adv(rng.choice([0, 1, 500, 1999, 2000, 2001, 4000, 6000, 6000, 30000]))
     for i in pending_b:
